@@ -10,6 +10,9 @@ code; the generator contributes their INPUTS.  Decided here:
      caller's value if it was there, the typed default otherwise), nothing else is added, `$alt` and
      use_integers_for_enums follow the numeric-enums option;
  (3) Method.query_params / path_params on a real HttpRule for ALL (verb, path-variable subset, body kind).
+ (4) CrossHair/z3 on the emitted _get_response of every REST stub (lifted unmodified): for ALL verbs the session is called
+     once with the transcoded verb and URL, strictly flattened query parameters, the caller's metadata as headers and --
+     whenever the rule declares a body -- the payload, whatever the verb.
 """
 from __future__ import annotations
 
@@ -166,7 +169,7 @@ def body(chk: core.Check):
             chk.violation("no-binding", "method without http rule does not raise NotImplementedError over REST", {"kind": "nohttp"})
         if chk.only("ch"):
             env = {"VERIF_EMITTED": g.outdir, "VERIF_NUMERIC": "1" if numeric else "0"}
-            res = ch.run(H, ["required_get", "required_others"], timeout=300, env=env, jobs=chk.jobs)
+            res = ch.run(H, ["required_get", "required_others", "send"], timeout=300, env=env, jobs=chk.jobs)
             ch.settle(chk, H, res, "required-defaults", key_prefix=f"numeric={numeric}:")
             for r in res:
                 chk.sample({"harness": "h04_rest." + r["func"], "numeric": numeric, "status": r["status"], "seconds": r["seconds"]})
@@ -174,6 +177,9 @@ def body(chk: core.Check):
                 enum_default_finding(chk, g)
                 tw = ch.run(H, ["twin"], timeout=120, env=env, jobs=1)[0]
                 chk.twin("required_get: a dict holding one required and one optional key reaches the comparison", tw["status"] == "refuted")
+                c3 = ch.run(H, ["send"], timeout=300, env=dict(env, VERIF_CANARY="drop-delete-body"), jobs=1)[0]
+                chk.canary("payload dropped for DELETE/GET bindings that declare a body (in-memory mutant)",
+                           c3["status"] == "refuted", c3.get("call", c3["status"]))
                 cn = ch.run(H, ["required_get"], timeout=300, env=dict(env, VERIF_CANARY="inject-present"), jobs=1)[0]
                 chk.canary("defaults injected even when the key is present (in-memory mutant)", cn["status"] == "refuted",
                            cn.get("call", cn["status"]))
